@@ -4,6 +4,7 @@ import RV.C17.LemmasTrieHist
 import RV.C17.LemmasFail
 import RV.C17.LemmasSplit
 import RV.C17.LemmasCat
+import RV.C17.LemmasXml
 /-
   C17 — property theorems (statements first, as `def … : Prop`, then the proofs).
 
@@ -125,6 +126,17 @@ def Statement_trig_names_expand : Prop :=
     (serTrig fb cs (St.init.run ops) Doc.empty []).2 = .ok (d, names) →
       ∀ u dp l, (u, dp, l) ∈ names → ∃ n, alookup d.table dp = some n ∧ n ++ l = u
 
+/-- The RDF/XML document (`XMLSerializer`): after any history, for the set of predicates `preds` of a graph
+    and the predicates `stmts` of the statements written (each of them one of `preds`): every element name —
+    `showQname (p, n, l)`, i.e. `p:l`, or the bare `l` under the default `xmlns=` — expands through the
+    document's own `xmlns` table `t` (built by `__bindings` BEFORE the statements are written, from separate
+    `compute_qname_strict` calls) back to the predicate: `t[p] = n` and `n ++ l = u`. -/
+def Statement_xml_names_expand : Prop :=
+  ∀ (ops : List Op) (i : Bool) (preds stmts : List Str) (t : List (Str × Str)) (names : List (Str × QN)),
+    (∀ u, u ∈ stmts → u ∈ preds) →
+    (serXml preds stmts (St.init.run ops).store ((St.init.run ops).mgr i)).2.2 = .ok (t, names) →
+      ∀ u p n l, (u, p, n, l) ∈ names → alookup t p = some n ∧ n ++ l = u
+
 /-- No operation, in any state — hence after every history — answers `Loop`: the fuel the model
     gives to the three `while` loops always suffices.  Fuel as a function of the sizes: the `ns<k>` loop
     of `compute_qname` and the `<prefix><k>` loop of `bind` stop within `len(bindings) + 1` rounds, the
@@ -219,6 +231,22 @@ theorem trig_names_expand : Statement_trig_names_expand := by
   exact (serTrig_all fb cs _ Doc.empty [] (HInv.run ops HInv.init)
     (by intro u dp l hm; exact absurd hm (by simp))).2 d names h
 
+/-- `xml_names_expand` for every history after which no prefix is bound to the empty namespace `URIRef("")`
+    (decidable: `emptyNsUnbound`).  Then bindings only grow while the document is made (`Keep`: a generated
+    `ns<k>` is a new key), every answer of the first pass stays memoised and valid, and the second pass repeats
+    it.  (With `ns1` bound to `""` a generated `ns1` would unbind `""`; no strict answer can have the empty
+    namespace, so the full statement is believed true as well — not proved, no counterexample.) -/
+theorem xml_names_expand_partial :
+    ∀ (ops : List Op) (i : Bool) (preds stmts : List Str) (t : List (Str × Str)) (names : List (Str × QN)),
+      emptyNsUnbound (St.init.run ops).store = true →
+      (∀ u, u ∈ stmts → u ∈ preds) →
+      (serXml preds stmts (St.init.run ops).store ((St.init.run ops).mgr i)).2.2 = .ok (t, names) →
+        ∀ u p n l, (u, p, n, l) ∈ names → alookup t p = some n ∧ n ++ l = u := by
+  intro ops i preds stmts t names hne hsub h
+  have hi := HInv.run ops HInv.init
+  exact serXml_names hi.store (noEmpty_of_check hne) ((TInv.run ops TInv.init).mgr i) (hi.mgr i).1 (hi.mgr i).2
+    preds stmts hsub t names h
+
 theorem no_loop : Statement_no_loop :=
   ⟨St.step_noloop, fun _ op => St.step_noloop _ op, pickNs_terminates, pickNumbered_terminates,
     freshP_terminates⟩
@@ -302,7 +330,9 @@ example : ((St.init.run exCollide).step (.sertrig true
 /-- RDF/XML: the `xmlns` table of a graph with the predicates `http://e/a/x` (prefix `b`) and `http://e/1a`
     (the strict split generates `ns1` for `http://e/1`), and the generated prefix is bound afterwards -/
 example : ((St.init.run exHist).step (.serxml false [iriX, nsE ++ [49, 97]] [iriX, nsE ++ [49, 97]])).2 =
-      .doc [(sB, nsEa), ([110, 115, 49], nsE ++ [49]), (strRdf, rdfNs)] ∧
+      .doc [(sB, nsEa), ([110, 115, 49], nsE ++ [49]), (strRdf, rdfNs),
+            (33 :: sB ++ [58, 120], iriX), ([33, 110, 115, 49, 58, 97], nsE ++ [49, 97])] ∧
+    emptyNsUnbound (St.init.run exHist).store = true ∧
     ((St.init.run exHist).step (.serxml false [iriX, nsE ++ [49, 97]] [iriX, nsE ++ [49, 97]])).1.store.namespace [110, 115, 49] =
       some (nsE ++ [49]) := by decide
 
